@@ -28,6 +28,7 @@
 (*   the plant must be off in the next step.                               *)
 (* Move: [on, start, sdn (this step is the first shutdown-profile step),   *)
 (*        p (output)].                                                     *)
+(* c.rf = <<a, b>>: frequency of the profiles (see Conv below).            *)
 (***************************************************************************)
 EXTENDS Integers, Sequences, FiniteSets, TLC, Json
 
@@ -37,6 +38,53 @@ vars == <<cfg, t, st, hist, val, fault>>
 BIG == 1000000
 Rs(c) == Len(c.sr)
 Rd(c) == Len(c.dr)
+
+(***************************************************************************)
+(* Profiles given in another frequency than the grid (parameter ramp_freq). *)
+(* c.rf = <<a, b>>: one grid step lasts a/b profile steps.  The profile is  *)
+(* a list r[1..n]; "interpolated to the grid's frequency" is read the way   *)
+(* the implementation does it (the documentation says no more than that):   *)
+(*  - grid coarser or equal (a >= b): the j-th profile value holds during   *)
+(*    the j-th profile step, the last value is kept afterwards, and the     *)
+(*    bound of a grid step is the time average over that grid step;         *)
+(*  - grid finer (a < b): the j-th profile value is reached at the END of   *)
+(*    the j-th profile step; the bound of the k-th grid step is the linear  *)
+(*    interpolation at the END of that grid step (constant before the first *)
+(*    and after the last profile point).                                    *)
+(* In both cases the converted profile has ceil(n * b / a) grid steps.      *)
+(* Arithmetic is exact: positions are scaled by b (resp. a); a converted    *)
+(* value that is not an integer makes ConvOK false (the family is then      *)
+(* rejected as machinery error, never judged).                              *)
+(***************************************************************************)
+CeilDiv(x, y) == (x + y - 1) \div y
+Min2(x, y) == IF x < y THEN x ELSE y
+Max2(x, y) == IF x > y THEN x ELSE y
+RECURSIVE SumTo(_, _)
+SumTo(f, k) == IF k = 0 THEN 0 ELSE f[k] + SumTo(f, k - 1)
+\* numerator and denominator of the converted value of grid step i (1-based)
+ConvNum(r, a, b, i) ==
+  LET n == Len(r) IN
+  IF a >= b
+  THEN \* [(i-1)a, ia) in units of 1/b profile steps; piece j covers [(j-1)b, jb)
+       LET jmax == CeilDiv(i * a, b)
+           ov == [j \in 1..jmax |-> Max2(0, Min2(i * a, j * b) - Max2((i - 1) * a, (j - 1) * b)) * r[Min2(j, n)]]
+       IN  SumTo(ov, jmax)
+  ELSE \* profile point j at position j*b, grid point i at position i*a (units of 1/a grid steps)
+       IF i * a <= b THEN r[1] * b
+       ELSE IF i * a >= n * b THEN r[n] * b
+       ELSE LET j == (i * a) \div b IN r[j] * b + (r[j + 1] - r[j]) * (i * a - j * b)
+ConvDen(a, b) == IF a >= b THEN a ELSE b
+ConvLen(r, a, b) == CeilDiv(Len(r) * b, a)
+Conv(r, a, b) == IF r = <<>> \/ a = b THEN r ELSE [i \in 1..ConvLen(r, a, b) |-> ConvNum(r, a, b, i) \div ConvDen(a, b)]
+ConvExact(r, a, b) == r = <<>> \/ a = b \/ \A i \in 1..ConvLen(r, a, b) : ConvNum(r, a, b, i) % ConvDen(a, b) = 0
+\* profiles are sequences of <<lo, hi>>: both components are converted separately
+Pairs(p, a, b) == LET lo == Conv([j \in 1..Len(p) |-> p[j][1]], a, b)
+                      hi == Conv([j \in 1..Len(p) |-> p[j][2]], a, b)
+                  IN  [j \in 1..Len(lo) |-> <<lo[j], hi[j]>>]
+PairsExact(p, a, b) == ConvExact([j \in 1..Len(p) |-> p[j][1]], a, b) /\ ConvExact([j \in 1..Len(p) |-> p[j][2]], a, b)
+Converted(c) == [c EXCEPT !.sr = Pairs(c.sr, c.rf[1], c.rf[2]), !.dr = Pairs(c.dr, c.rf[1], c.rf[2]),
+                          !.srh = Pairs(c.srh, c.rf[1], c.rf[2]), !.drh = Pairs(c.drh, c.rf[1], c.rf[2])]
+ConvOK(c) == \A p \in {c.sr, c.dr, c.srh, c.drh} : PairsExact(p, c.rf[1], c.rf[2])
 
 StepR(c, s, x, m) ==
   LET trans == m.on /\ ~x.on
@@ -85,7 +133,9 @@ Moves(w) == { [on |-> o, start |-> sf, sdn |-> sd, p |-> p, h |-> h] : o \in BOO
 InitDu(c) == IF c.run0 = 0 THEN {0}
              ELSE {0} \cup { k \in 1..(Rd(c) - 1) : c.run0 >= c.minrun + Rs(c) + (Rd(c) - k) }
                       \cup (IF Rd(c) > 0 /\ c.run0 >= c.minrun + Rs(c) + Rd(c) THEN {-1} ELSE {})
-Init == /\ cfg \in Configs /\ t = 1 /\ hist = <<>> /\ val = 0 /\ fault = ""
+\* the state machine runs on the CONVERTED configuration (cfg.sr etc. are the profiles in grid steps)
+Init == /\ \E c0 \in Configs : cfg = Converted(c0)
+        /\ t = 1 /\ hist = <<>> /\ val = 0 /\ fault = ""
         \* a plant declared running may already be anywhere in its shutdown profile (the profile is cut at the border of the
         \* horizon: its steps before the horizon are not constrained), as far as its declared run time allows
         /\ \E du0 \in InitDu(cfg) :
@@ -115,6 +165,7 @@ ProfilesFollowed == (fault = "") => \A e \in 1..Len(hist) : hist[e].on =>
                     /\ \A j \in 1..Rd(cfg) : (e + j <= Len(hist) /\ (\A i \in 0..(j - 1) : hist[e + i].on) /\ ~hist[e + j].on)
                                                => (hist[e].p + hist[e].h >= cfg.dr[j][1] /\ hist[e].p + hist[e].h <= cfg.dr[j][2])
 OffZero == (fault = "") => \A e \in 1..Len(hist) : (~hist[e].on => hist[e].p = 0 /\ hist[e].h = 0)
+ASSUME ConversionExact == \A c0 \in Configs : ConvOK(c0)      \* families keep converted bounds integral (else: machinery error)
 HeatWithinShare == (fault = "") => \A e \in 1..Len(hist) : hist[e].h <= hist[e].p
 
 Emit == /\ (Complete \/ fault # "") => PrintT(<<"BEH", ToJson([cid |-> cfg.id, fault |-> fault, at |-> Len(hist), val |-> val, steps |-> hist])>>)
